@@ -91,4 +91,29 @@ example : clear_bit_large 64 64 [5, 0, 0, 256] 200 = some (.small 5) ∧ clear_b
     split_bits_large 64 64 [1, 2, 3] 0 = some (.small 0, .large [1, 2, 3]) := by
   refine ⟨by decide, by decide, by decide, by decide⟩
 
+-- ---------------------------------------------------------------- round 6: `TypedRepr::set_bit`, inline arm and whole method
+
+/-- **`TypedRepr::set_bit`, arm `Small(dword)`** (the inline test `n < DWORD_BITS_USIZE` — without it `1 << n` overflows — the inline
+    `dword | 1 << n`, else the regenerated `with_bit_dword_spilled`) = the inline arm of the hand model's `TRepr.setBit`, every `n` -/
+theorem gen_set_bit_small (W U d n : Nat) (hW : 1 ≤ W) (hU : n / W + 1 < 2 ^ U) :
+    set_bit_small W U d n = some (TRepr.setBit W (.small d) n) := by
+  unfold set_bit_small
+  by_cases hn : n < 2 * W
+  · have hp : (2 : Nat) ^ n < 2 ^ (2 * W) := Nat.pow_lt_pow_right (by decide) hn
+    simp only [hn, decide_true, if_true, MachInt.shl, Nat.one_mul, Nat.mod_eq_of_lt hp, bind, Option.bind, pure, TRepr.setBit]
+  · simp only [hn, decide_false, Bool.false_eq_true, if_false, gen_with_bit_dword_spilled W U d n hW (by omega) hU, bind,
+      Option.bind, pure]
+
+/-- **`TypedRepr::set_bit`** (the whole method as regenerated) = `TRepr.setBit`, the definition the driver executes for `u.setbit` -/
+theorem gen_set_bit (W U n : Nat) (x : TRepr) (hW : 1 ≤ W) (hU : n / W + 1 < 2 ^ U) :
+    set_bit W U x n = some (TRepr.setBit W x n) := by
+  cases x with
+  | small d => exact gen_set_bit_small W U d n hW hU
+  | large ws => exact gen_with_bit_large W U n ws hW hU
+
+-- non-vacuity (64-bit words): the last inline position, the first spilled one, a heap operand
+example : set_bit 64 64 (.small 5) 127 = some (.small (5 + 2 ^ 127)) ∧ set_bit 64 64 (.small 5) 128 = some (.large [5, 0, 1]) ∧
+    set_bit 64 64 (.large [1, 2, 3]) 64 = some (.large [1, 3, 3]) ∧ set_bit 64 64 (.large [1, 2, 3]) 256 = some (.large [1, 2, 3, 0, 1]) := by
+  refine ⟨by decide, by decide, by decide, by decide⟩
+
 end Dashu.Props.GenBitsHeap
